@@ -69,14 +69,76 @@ def correspondence(ctx):
                 if i != m:
                     ctx.mismatch("parser.parse", c.describe(), i, m)
             ctx.traces += len(calls)
-        # the hypothesis of parse_render_iso on the classification: Python's classes of the characters involved
-        want = {c: str(i) for i, c in enumerate("0123456789")}
-        want.update({"-": "x", ":": "x", "T": "a", " ": "s"})
-        for ch, k in want.items():
-            if L.cls_char(ch) != k:
-                ctx.mismatch("AsciiLike", ascii(ch), L.cls_char(ch), k)
-        ctx.hist["templates_with_theorem"] = "iso_T_s, iso_sp_s (C02.parse_render_iso: all valid datetimes, naive)"
-        ctx.hist["templates_correspondence_only"] = ", ".join(t['name'] for t in G.TEMPLATES if t['name'] not in ("iso_T_s", "iso_sp_s")) + "; and every offset spelling"
+        # the hypothesis `AsciiOK` of the parse_render theorems: Python's classes of all 128 ASCII characters
+        lean_ascii = ctx.driver(["parser.asciicls"])[0][3:]
+        py_ascii = "".join(L.cls_char(chr(i)) for i in range(128))
+        if lean_ascii != py_ascii:
+            ctx.mismatch("AsciiOK", "ASCII classes", py_ascii, lean_ascii)
+        ctx.hist["templates_with_theorem"] = (
+            "parse_render_iso_offsets: iso_[T|sp]_[s|us|dot_f1..f6|comma_f1..f6|min] x {none, Z, ' Z', ' UTC', +-HH, +-HHMM, +-HH:MM, "
+            "each also after a space}; parse_render_compact: compact_T_s, compact_nosep_s, compact_T_min, compact_date; "
+            "parse_render_monthname: ctime, rfc2822 (x every offset), 'Month D, YYYY', d_Mon_Y, dd-Mon-Y (year >= 100 except "
+            "dd-Mon-Y); parse_render_ampm: 'YYYY-MM-DD H:MM AM|PM'; parse_render_hms_letters: hms_letters")
+        ctx.hist["templates_correspondence_only"] = (
+            "parse_render_partial: us_slash, us_dash_date, eu_slash, eu_dot, yf_slash, yf_dot_date, us_yy, eu_yy, yf_yy, dd-Mon-yy, "
+            "yymmdd (family 7); long_ampm, ampm_short, ampm_hour, ampm_hour_tight, hm_letters, compact_T_us, d_Month_Y_hm, "
+            "Mon_d_Y_hms; offsets after the non-ISO templates other than rfc2822")
+        # the Lean printers of the proved families against independent Python printers
+        rr = ctx.subrng("rend")
+        reqs, exp = [], []
+        def offs():
+            k = rr.choice("nzuhmc")
+            sp, neg = rr.randint(0, 1), rr.randint(0, 1)
+            hh, mm = rr.choice([0, 3, 9, 10, 23]), rr.choice([0, 1, 30, 59])
+            sg = "-" if neg else "+"
+            pre = " " if sp else ""
+            if k == "n": return "n", ""
+            if k == "z": return "z%d" % sp, pre + "Z"
+            if k == "u": return "u", " UTC"
+            if k == "h": return "h%d%d.%d" % (sp, neg, hh), "%s%s%02d" % (pre, sg, hh)
+            if k == "m": return "m%d%d.%d.%d" % (sp, neg, hh, mm), "%s%s%02d%02d" % (pre, sg, hh, mm)
+            return "c%d%d.%d.%d" % (sp, neg, hh, mm), "%s%s%02d:%02d" % (pre, sg, hh, mm)
+        for _ in range(ctx.budget(4000, 40000)):
+            d = G.boundary_dt(rr)
+            dl = "[%d,%d,%d,%d,%d,%d,%d]" % (d.year, d.month, d.day, d.hour, d.minute, d.second, d.microsecond)
+            ow, os_ = offs()
+            kind = rr.choice(["isox", "isox", "compact", "mon", "mon", "ampm", "hmsl"])
+            date = "%04d-%02d-%02d" % (d.year, d.month, d.day)
+            hms = "%02d:%02d:%02d" % (d.hour, d.minute, d.second)
+            if kind == "isox":
+                sep = rr.choice("T "); fc = rr.randint(0, 3); k = rr.randint(1, 6)
+                tm = [hms, hms + "." + ("%06d" % d.microsecond)[:k], hms + "," + ("%06d" % d.microsecond)[:k], hms[:5]][fc]
+                reqs.append("parser.rend isox [%d,%d,%d] %s %s" % (ord(sep), fc, k, dl, ow)); exp.append(date + sep + tm + os_)
+            elif kind == "compact":
+                f = rr.randint(0, 3); cd = "%04d%02d%02d" % (d.year, d.month, d.day)
+                e = [cd + "T%02d%02d%02d" % (d.hour, d.minute, d.second), cd + "%02d%02d%02d" % (d.hour, d.minute, d.second),
+                     cd + "T%02d%02d" % (d.hour, d.minute), cd][f]
+                reqs.append("parser.rend compact [%d] %s n" % (f, dl)); exp.append(e)
+            elif kind == "mon":
+                f = rr.randint(0, 4); w = rr.randint(0, 6)
+                e = ["%s %s %2d %s %04d" % (G.WD[w], G.MON[d.month - 1], d.day, hms, d.year),
+                     "%s, %02d %s %04d %s%s" % (G.WD[w], d.day, G.MON[d.month - 1], d.year, hms, os_),
+                     "%s %d, %04d" % (G.MONL[d.month - 1], d.day, d.year), "%d %s %04d" % (d.day, G.MON[d.month - 1], d.year),
+                     "%02d-%s-%04d" % (d.day, G.MON[d.month - 1], d.year)][f]
+                reqs.append("parser.rend mon [%d,%d] %s %s" % (f, w, dl, ow if f == 1 else "n")); exp.append(e)
+            elif kind == "ampm":
+                reqs.append("parser.rend ampm [] %s n" % dl); exp.append("%s %d:%02d %s" % (date, G.h12(d.hour), d.minute, G.ap(d.hour)))
+            else:
+                reqs.append("parser.rend hmsl [] %s n" % dl); exp.append("%s %02dh%02dm%02ds" % (date, d.hour, d.minute, d.second))
+        got = ctx.driver(reqs)
+        for q, e, g in zip(reqs, exp, got):
+            if g != "ok " + L.cps(e):
+                ctx.mismatch("parser.rend", q, e, g)
+        # and the implementation parses exactly these renderings as the theorems say (offset descriptor included)
+        sub = [(q, e) for q, e in zip(reqs, exp)][: ctx.budget(1500, 15000)]
+        calls = [L.Call(e, default=datetime.datetime(2001, 1, 1)) for _, e in sub]
+        model = L.model_answers(ctx, calls)
+        for c, m in zip(calls, model):
+            i, _, _ = L.run_impl(c)
+            if i != m:
+                ctx.mismatch("parser.parse", c.describe(), i, m)
+        ctx.traces += len(reqs) + len(calls)
+        ctx.count("rend_cases", len(reqs))
         # the Lean printer of the proved family against the Python printer
         L.set_tz("UTC")
         rs = ctx.subrng("render")
@@ -173,7 +235,7 @@ def replay(ctx, payload):
     c = payload["violation"]["case"]
     prev = L.set_tz(c.get("TZ") or "UTC")
     try:
-        call = L.Call(c["text"], default=datetime.datetime(2001, 1, 1), dayfirst=c.get("dayfirst"), yearfirst=c.get("yearfirst"))
+        call = L.call_from_case(c)
         a, _, _ = L.run_impl(call)
         m = L.model_answers(ctx, [call])[0]
     finally:
